@@ -67,7 +67,10 @@ func (dl *dialLimiter) freeFDToken() {
 	log.Debug("[limiter] freeing FD token", "waiting", len(dl.waitingOnFd), "fd_consuming", dl.fdConsuming)
 	dl.fdConsuming--
 
-	for len(dl.waitingOnFd) > 0 {
+	// Releasing the peer token of a canceled job below can start a job waiting
+	// on the peer limit, which takes the FD token we just freed: stop once the
+	// token is gone instead of handing it out a second time.
+	for len(dl.waitingOnFd) > 0 && dl.fdConsuming < dl.fdLimit {
 		next := dl.waitingOnFd[0]
 		dl.waitingOnFd[0] = nil // clear out memory
 		dl.waitingOnFd = dl.waitingOnFd[1:]
